@@ -232,3 +232,113 @@ func extBlockOps(sb *strings.Builder, repo string, it Item) {
 	fmt.Fprintf(sb, "(* from %s : %s *)\nDefinition %s : list (Z * bool * bool) := (%s)%%list.\n", it.File, it.Func, it.Name,
 		"cons "+strings.Join(items, " (cons ")+" nil"+strings.Repeat(")", len(items)-1))
 }
+
+// ---------------------------------------------------------------------------------------------
+// item kind "ctxflow" (C12): which context reaches a callee.
+//
+//   {"kind":"ctxflow","file":"mtproto/connect.go","func":"Conn.connect","name":"connect_nonpfs",
+//    "stmt":"createAuthKey"}
+//
+// Finds the single call `<recv>.<stmt>(X)` in Func and classifies X:
+//   0  X is the function's own context parameter, never rebound            (caller's deadline only)
+//   1  X := / = context.WithTimeout(<param>, <recv>.dialTimeout) unconditionally in the body
+//   2  X is so rebound only inside `if !<recv>.pfs { ... }`                 (dial timeout iff not PFS)
+// Anything else -> the translator refuses. Emits  Definition c_ctx_<name> : Z := code.
+func extCtxFlow(sb *strings.Builder, repo string, it Item) {
+	f, err := parser.ParseFile(fset, filepath.Join(repo, it.File), nil, 0)
+	if err != nil {
+		die("parse %s: %v", it.File, err)
+	}
+	fd := findFunc(f, it.Func)
+	if fd == nil || fd.Body == nil {
+		die("function %s not found in %s", it.Func, it.File)
+	}
+	param := ""
+	for _, p := range fd.Type.Params.List {
+		if show(p.Type) == "context.Context" && len(p.Names) == 1 {
+			param = p.Names[0].Name
+		}
+	}
+	if param == "" {
+		die("%s: no context parameter", it.Func)
+	}
+	var arg string
+	n := 0
+	ast.Inspect(fd.Body, func(nd ast.Node) bool {
+		if call, ok := nd.(*ast.CallExpr); ok {
+			if sel, ok := call.Fun.(*ast.SelectorExpr); ok && sel.Sel.Name == it.Stmt && len(call.Args) >= 1 {
+				arg = show(call.Args[0])
+				n++
+			}
+		}
+		return true
+	})
+	if n != 1 {
+		die("%s: expected exactly one call of %s, found %d", it.Func, it.Stmt, n)
+	}
+	isDialTimeout := func(e ast.Expr) bool {
+		call, ok := e.(*ast.CallExpr)
+		return ok && show(call.Fun) == "context.WithTimeout" && len(call.Args) == 2 &&
+			show(call.Args[0]) == param && strings.HasSuffix(show(call.Args[1]), ".dialTimeout")
+	}
+	rebinds := func(st ast.Stmt) (bool, bool) { // (rebinds arg with the dial timeout, rebinds arg with something else)
+		as, ok := st.(*ast.AssignStmt)
+		if !ok || len(as.Lhs) == 0 || show(as.Lhs[0]) != arg || len(as.Rhs) != 1 {
+			return false, false
+		}
+		if isDialTimeout(as.Rhs[0]) {
+			return true, false
+		}
+		if show(as.Rhs[0]) == param { // plain alias `connectCtx := ctx`
+			return false, false
+		}
+		return false, true
+	}
+	code := 0
+	other := false
+	for _, st := range fd.Body.List {
+		if d, o := rebinds(st); d {
+			code = 1
+		} else if o {
+			other = true
+		}
+		if ifs, ok := st.(*ast.IfStmt); ok {
+			inner := false
+			ast.Inspect(ifs.Body, func(nd ast.Node) bool {
+				if s2, ok := nd.(ast.Stmt); ok {
+					if d, o := rebinds(s2); d {
+						inner = true
+					} else if o {
+						other = true
+					}
+				}
+				return true
+			})
+			if inner {
+				if strings.HasSuffix(show(ifs.Cond), ".pfs") && strings.HasPrefix(show(ifs.Cond), "!") && ifs.Else == nil {
+					if code == 0 {
+						code = 2
+					}
+				} else {
+					die("%s: %s is rebound under a condition that is not `!<recv>.pfs` (%s): shape not understood", it.Func, arg, show(ifs.Cond))
+				}
+			}
+		}
+	}
+	if other {
+		die("%s: %s is rebound by something other than the dial timeout: shape not understood", it.Func, arg)
+	}
+	if arg != param && code == 0 {
+		// an alias of the parameter that is never rebound behaves like the parameter
+		aliased := false
+		for _, st := range fd.Body.List {
+			if as, ok := st.(*ast.AssignStmt); ok && len(as.Lhs) == 1 && show(as.Lhs[0]) == arg && len(as.Rhs) == 1 && show(as.Rhs[0]) == param {
+				aliased = true
+			}
+		}
+		if !aliased {
+			die("%s: cannot tell where context %s comes from", it.Func, arg)
+		}
+	}
+	fmt.Fprintf(sb, "(* from %s : %s passes %s to %s *)\nDefinition c_ctx_%s : Z := %d.\n", it.File, it.Func, arg, it.Stmt, it.Name, code)
+}
